@@ -283,7 +283,7 @@ def apply_op(doc, op):
     if not isinstance(op, dict):
         raise PatchError("operation is not an object")
     for k in op:
-        if k not in ("op", "path", "from", "value"):
+        if k not in ("op", "path", "from", "value") and "decoder-prefix" not in OPEN_ON:
             raise Lenient("unknown member %r (the library decodes member names by prefix)" % k)
     name = op.get("op")
     if "op" not in op:
@@ -293,12 +293,14 @@ def apply_op(doc, op):
     if not isinstance(name, str) or not isinstance(op["path"], str):
         raise PatchError("op/path is not a string")
     if name not in RFC_OPS + EXT_OPS:
+        if "decoder-prefix" in OPEN_ON:
+            raise PatchError("decoder-prefix: %r is no operation name" % name)
         raise Lenient("operation name %r (the library decodes names by prefix)" % name)
     if doc == ("NONE",):
         raise Lenient("no document left after the root was removed")
     path = ptr_parse(op["path"])
     frm = None
-    if name in ("move", "copy") and not path:
+    if name in ("move", "copy") and not path and "root-move-copy" not in OPEN_ON:
         raise Lenient("move/copy onto the root is ignored by the library")
     if name in EXT_OPS and not path:
         raise Unspecified("extension on the root")
@@ -336,6 +338,8 @@ def apply_op(doc, op):
             return v
         doc, _ = p_remove(doc, path)
         return p_add(doc, path, v)
+    if name in ("move", "copy") and not path:       # rfc6902 4.4 / 4.5 onto the whole document (class root-move-copy)
+        return doc if not frm else clone(get(doc, frm))
     if name == "move":
         if not path:
             raise Lenient("move onto the root is ignored by the library")
@@ -395,11 +399,15 @@ def apply_op(doc, op):
         except PatchError:
             raise Unspecified("add_create failed after creating parents")
     if name == "swap":
+        if "swap-nested" in OPEN_ON and len(frm) != len(path) and frm[:min(len(frm), len(path))] == path[:min(len(frm), len(path))]:
+            raise PatchError("swap-nested: a location cannot change places with a part of itself")
         a = get(doc, frm)
         pre = min(len(frm), len(path))
         if frm[:pre] == path[:pre]:
             if frm == path:
                 return doc
+            if "swap-nested" in OPEN_ON:
+                raise PatchError("swap-nested: a location cannot change places with a part of itself")
             raise Unspecified("swap of nested locations")
         try:
             b = get(doc, path)
@@ -514,6 +522,13 @@ _open_env = [x for x in os.environ.get("VERIF_JPATCH_OPEN", "").split(",") if x]
 # are read with iwatoi; "-" addresses the last element), parent-pointers (children taken over by _jbl_copy_node_data keep the
 # `parent` pointer of the node they came from).
 OPEN_ON = set(OPEN_CLASSES)     # all repaired in /repo (ef0c81e, e38ce78, 9a2bde2, eca2cba, 61c2a75): generated and judged on every run
+# Round 7 (notes/jpatch.md): re-decided as genuine, repairs delivered as fixes/jpatch-{root-move-copy,decode-exact,swap-nested}.diff,
+# tolerated by default (oracle classes lenient / unspecified as before) until committed; VERIF_JPATCH_OPEN=<name,..>|all judges them:
+#   root-move-copy   move / copy with path "" must make the value at `from` the whole document (the library: rc 0, nothing done)
+#   decoder-prefix   members that are no "op" / "path" / "from" / "value" must be ignored, operation names must be exact
+#   swap-nested      swap of a location with a part of itself must be an error (the library: rc 0, data lost)
+R7_CLASSES = ("root-move-copy", "decoder-prefix", "swap-nested")
+OPEN_ON |= set(R7_CLASSES) if "all" in _open_env else set(x for x in _open_env if x in R7_CLASSES)
 DBL_NEAR_OPEN = [(0.5, 0.500000001), (1e-9, 2e-9), (0.0, 1e-9)]      # equal in "%.8Lf" text; and 0.0 / -0.0 differ in it
 STR_NEAR_OPEN = [("a\x00b", "a\x00c"), ("\x00a", "\x00b"),("x\x00yz", "x\x00zy")]   # same length, equal up to a 0 byte
 
@@ -1322,6 +1337,28 @@ def gen_move_shift_case(rng):
     return doc, prog
 
 
+INC_BOUND_DBL = [9223372036854775808.0, 9223372036854774784.0, 9223372036854777856.0, -9223372036854775808.0,
+                 -9223372036854777856.0, -9223372036854774784.0, 4611686018427387904.0, -4611686018427387904.0,
+                 18446744073709551616.0, 1e19, -1e19, 9.3e18, -9.3e18, 9007199254740992.0, 9007199254740994.0, 1024.5, -0.5]
+INC_BOUND_INT = [0, 1, -1, 5, -5, 1023, 1024, 1025, -1024, 2048, 4611686018427387904, -4611686018427387904,
+                 9223372036854775807, 9223372036854774783, -9223372036854775808, -9223372036854775807]
+
+
+def gen_inc_boundary_case(rng):
+    """increment by a double at the edges of the double -> int64 conversion (2^63 itself, its neighbours 2^63-1024 and 2^63+2048,
+    -2^63 and -2^63-2048, 2^62, 2^64) against integer targets of both signs, as a member and as an array element; the refused
+    ones must leave the document as it was (binary modes: byte for byte)"""
+    t1, t2 = rng.choice(INC_BOUND_INT), rng.choice(INC_BOUND_INT)
+    doc = {"n": t1, "arr": [7, t2], "d": 0.5}
+    ops = []
+    if rng.chance(1, 3):
+        ops.append({"op": "increment", "path": "/d", "value": rng.choice([1, 2.5])})
+    ops.append({"op": "increment", "path": rng.choice(["/n", "/arr/1"]), "value": rng.choice(INC_BOUND_DBL)})
+    if rng.chance(1, 3):
+        ops.append({"op": "increment", "path": rng.choice(["/n", "/arr/1"]), "value": rng.choice(INC_BOUND_DBL + INC_BOUND_INT)})
+    return doc, ops
+
+
 def gen_inc_overflow_case(rng):
     big = rng.choice([9223372036854775807, 9223372036854775806, 9223372036854775000, -9223372036854775808, -9223372036854775807])
     doc = {"n": big, "arr": [1, big], "d": 1.5}
@@ -1461,6 +1498,18 @@ def check(run):
         for _ in range(N // 8):
             doc, prog = gen_inc_overflow_case(rng)
             cases.append((gen_json(doc), gen_json(prog), doc, prog, "inc-overflow"))
+        for _ in range(N // 3):
+            doc, prog = gen_inc_boundary_case(rng)
+            cases.append((gen_json(doc), gen_json(prog), doc, prog, "inc-bound"))
+    if "root-move-copy" in OPEN_ON:
+        for _ in range(N // 8):
+            doc = gen_value(rng, 3, want="o")
+            paths = [p for p, v in all_paths(doc) if p]
+            frm = rng.choice(paths) if paths and rng.chance(5, 6) else rng.choice(["", "/zz"])
+            prog = [{"op": rng.choice(["move", "copy"]), "from": frm, "path": ""}]
+            if rng.chance(1, 2):
+                prog.append({"op": "add", "path": "/after", "value": 1})
+            cases.append((gen_json(doc), gen_json(prog), doc, prog, "root-move"))
     # pairs of calls (same mode, one after the other): the second patch lacks members the first one had
     groups = [[ci] for ci in range(len(cases))]
     for _ in range(N // 6):
